@@ -251,6 +251,14 @@ def scenarios(tier):
     sc.append({"name": "tcp-gateway-of-scan-interface", "args": ["tcp", "syn", "--json", "-p", "80", "-a", "{dir}/cache2", "--srcip", "10.9.0.77", "--exit-delay", "400ms", "10.9.3.0/30"],
                "files": {"cache2": cache}, "routes": [["default", "via", "10.8.0.254", "dev", "vft0", "metric", "100"], ["default", "via", "10.9.0.254", "dev", "vfw0", "metric", "200"]],
                "expect": dict(packet_expect("tcpsyn", target(net30, 30, [rng(80, 80)]), [[rng(80, 80)]], [4], 400, dstmac=gwb), dstmacs=[{"ip": a(1), "mac": m1}])})
+    # 9i'. an ARP cache with IPv6 neighbours (low 32 bits = a scanned address; the unspecified address), no --gwmac and no default route:
+    # only the address with its own entry is probed, with its own MAC; the others become errors - no neighbour's MAC stands in as gateway
+    m6 = [2, 0x5a, 6, 6, 6, 6]
+    cache6 = "".join('{"ip":"%s","mac":"%s"}\n' % (ip, ":".join("%02x" % x for x in mac))
+                     for ip, mac in (("fe80::a09:302", m6), ("::", m6), ("10.9.3.1", m1), ("2001:db8::a09:301", m6), ("::1", m6)))
+    sc.append({"name": "tcp-cache-v6-no-gateway", "args": ["tcp", "syn", "--json", "-p", "80", "-a", "{dir}/cache6", "--srcip", "10.9.0.77", "--exit-delay", "300ms", "10.9.3.0/30"],
+               "files": {"cache6": cache6},
+               "expect": dict(packet_expect("tcpsyn", target(net30, 30, [], pairs=[{"ip": a(1), "port": 80}]), [[rng(80, 80)]], [1], 300, dstmac=[]), dstmacs=[{"ip": a(1), "mac": m1}])})
     # 9j. application scans over HTTP: every connection goes to a target, whatever the environment or the server says
     hexp = lambda tgt, maxc, nrec: {"kind": "apphttp", "scan": "elastic", "target": tgt, "maxConns": maxc, "nrecords": nrec, "hosts": False}
     proxy = ["HTTP_PROXY=http://10.200.0.99:3128", "http_proxy=http://10.200.0.99:3128", "HTTPS_PROXY=http://10.200.0.99:3128", "https_proxy=http://10.200.0.99:3128", "NO_PROXY=", "no_proxy="]
